@@ -28,20 +28,144 @@ theorem TInv.eq_zero (h : TInv s) {t : Nat} (hp : (s.pc t).isSub = false) : t = 
   · exact ht
   · have := h.sub t ht; simp_all
 
+theorem holdsSrc_valid {p : PC} {n q : Nat} (hv : p.valid n) (h : p.holdsSrc q = true) : q < n := by
+  cases p <;> simp_all
+theorem holdsOrd_valid {p : PC} {n q : Nat} (hv : p.valid n) (h : p.holdsOrd q = true) : q < n := by
+  cases p <;> simp_all
+
 theorem sub_step (h : TInv s) (hs : TStep s t e s') : ∀ t', t' ≠ 0 → (s'.pc t').isSub = true := by
   intro t' ht'
   have h1 := h.sub t' ht'
-  cases hs <;> by_cases htt : t' = t <;> simp_all [setPc_pc]
+  have h2 := h.sub t
+  cases hs <;> grind [PC.isSub]
 
 theorem main_step (h : TInv s) (hs : TStep s t e s') :
     ∀ t', s'.mainLock = some t' ↔ (s'.pc t').holdsMain = true := by
   intro t'
   have h0 := h.main
-  have h1 := h0 t'
-  have h2 := h0 t
-  cases hs <;> by_cases htt : t' = t <;> simp_all [setPc_pc] <;> grind
+  cases hs <;> grind [PC.holdsMain]
+
+theorem src_step (h : TInv s) (hs : TStep s t e s') :
+    ∀ q, q < s'.queues.length → ∀ t', (s'.q q).srcLock = some t' ↔ (s'.pc t').holdsSrc q = true := by
+  intro q hq t'
+  have h0 := h.src
+  have h1 := fun hq => h0 q hq t
+  have hv := h.valid t
+  have hv' := h.valid t'
+  have hd := @q_of_not_lt s q
+  have hx := @holdsSrc_valid (s.pc t') s.queues.length q hv'
+  cases hs <;> grind [PC.holdsSrc, PC.valid]
+
+theorem ord_step (h : TInv s) (hs : TStep s t e s') :
+    ∀ q, q < s'.queues.length → ∀ t', (s'.q q).ordLock = some t' ↔ (s'.pc t').holdsOrd q = true := by
+  intro q hq t'
+  have h0 := h.ord
+  have h1 := fun hq => h0 q hq t
+  have hv := h.valid t
+  have hv' := h.valid t'
+  have hd := @q_of_not_lt s q
+  have hx := @holdsOrd_valid (s.pc t') s.queues.length q hv'
+  cases hs <;> grind [PC.holdsOrd, PC.valid]
 
 theorem length_step (hs : TStep s t e s') : s.queues.length ≤ s'.queues.length := by
   cases hs <;> simp
+
+theorem mem_of_mem_dropLast {α} {l : List α} {a : α} (h : a ∈ l.dropLast) : a ∈ l := List.dropLast_subset l h
+theorem nodup_dropLast {α} {l : List α} (h : l.Nodup) : l.dropLast.Nodup := h.sublist (List.dropLast_sublist l)
+theorem not_mem_dropLast_of_getLast? {α} {l : List α} {a : α} (hn : l.Nodup) (h : l.getLast? = some a) :
+    a ∉ l.dropLast := by
+  obtain ⟨ys, rfl⟩ := List.getLast?_eq_some_iff.1 h
+  rw [List.dropLast_concat]
+  rw [List.nodup_append] at hn
+  intro hm
+  exact hn.2.2 a hm a (by simp) rfl
+theorem nodup_concat {α} {l : List α} {a : α} (hn : l.Nodup) (h : a ∉ l) : (l ++ [a]).Nodup := by
+  rw [List.nodup_append]
+  refine ⟨hn, by simp, ?_⟩
+  intro x hx y hy
+  simp at hy; subst hy
+  intro e; subst e; exact h hx
+
+theorem valid_mono {p : PC} {n m : Nat} (hv : p.valid n) (h : n ≤ m) : p.valid m := by
+  cases p <;> simp_all <;> grind
+
+theorem valid_step (h : TInv s) (hs : TStep s t e s') : ∀ t', (s'.pc t').valid s'.queues.length := by
+  intro t'
+  have hv := h.valid t
+  have hv' := h.valid t'
+  have hm := @valid_mono (s.pc t') s.queues.length (s.queues.length + 1) hv' (by omega)
+  have hl := h.lvValid
+  have ha := h.actValid
+  cases hs <;> grind [PC.valid, List.mem_of_getLast?]
+
+theorem lvValid_step (h : TInv s) (hs : TStep s t e s') : ∀ q ∈ s'.levels, q < s'.queues.length := by
+  intro q hq
+  have hv := h.valid t
+  have hl := h.lvValid
+  cases hs <;> grind [PC.valid, → mem_of_mem_dropLast]
+
+theorem actValid_step (h : TInv s) (hs : TStep s t e s') : s'.active < s'.queues.length := by
+  have hv := h.valid t
+  have ha := h.actValid
+  cases hs <;> grind [PC.valid]
+
+theorem lvNodup_step (h : TInv s) (hs : TStep s t e s') : s'.levels.Nodup := by
+  have hn := h.lvNodup
+  have h0 : (s.pc t).isSub = false → t = 0 := h.eq_zero
+  have ha := h.act
+  cases hs <;> grind [PC.isSub, PC.activeOK, nodup_dropLast, nodup_concat]
+
+theorem snapOK_of_not_holdsMain {p : PC} (lv : List Nat) (h : p.holdsMain = false) : p.snapOK lv := by
+  cases p <;> simp_all
+
+theorem snap_step (h : TInv s) (hs : TStep s t e s') : ∀ t', (s'.pc t').snapOK s'.levels := by
+  intro t'
+  have hm := h.main
+  by_cases htt : t' = t
+  · subst htt
+    have hs1 := h.snap t'
+    cases hs <;> simp_all
+    case askRelYes sg q todo hpc =>
+      obtain ⟨asked, ha⟩ := hs1
+      have : q ∈ s.levels.reverse := by rw [ha]; simp
+      simpa using this
+    case askRelNo sg q todo hpc =>
+      obtain ⟨asked, ha⟩ := hs1
+      exact ⟨asked ++ [q], by simp [ha]⟩
+  · have hs2 := h.snap t'
+    have hn := fun lv => @snapOK_of_not_holdsMain (s.pc t') lv
+    cases hs <;> (try simp only [setPc_pc, htt, if_false, setPc_levels, setQ_levels, setQ_pc, pc_mk_same])
+      <;> first | exact hs2 | (apply hn; grind)
+
+theorem act_step (h : TInv s) (hs : TStep s t e s') : (s'.pc 0).activeOK s'.levels s'.active := by
+  have ha := h.act
+  by_cases ht : t = 0
+  · subst ht
+    have hlv := h.lvValid
+    have hnd := h.lvNodup
+    cases hs <;> simp_all
+    case nlWrite => intro hm; exact Nat.lt_irrefl _ (hlv _ hm)
+    case clPop q _ _ hq =>
+      rcases ha with rfl | hnil
+      · exact not_mem_dropLast_of_getLast? hnd hq
+      · simp [hnil]
+  · have hsub := h.sub t ht
+    have h0 : ¬ 0 = t := fun e => ht e.symm
+    cases hs <;> simp_all [setPc_pc]
+
+/-! ### the invariant holds in every reachable state -/
+
+@[simp] theorem init_pc (src0 : List Nat) (t : Nat) : (initState src0).pc t = .idle := by
+  simp [initState, TState.pc]
+
+theorem tinv_init (src0 : List Nat) : TInv (initState src0) := by
+  refine ⟨?_, ?_, ?_, ?_, ?_, ?_, ?_, ?_, ?_, ?_⟩ <;> (try simp) <;> (try simp [initState, TState.q])
+
+theorem tinv_step (h : TInv s) (hs : TStep s t e s') : TInv s' :=
+  ⟨sub_step h hs, main_step h hs, src_step h hs, ord_step h hs, valid_step h hs, lvValid_step h hs,
+    lvNodup_step h hs, actValid_step h hs, snap_step h hs, act_step h hs⟩
+
+theorem tinv_reach {src0 : List Nat} {s : TState} (hr : TReach src0 s) : TInv s :=
+  treach_induction (P := TInv) (tinv_init src0) (fun _ _ _ _ _ h hs => tinv_step h hs) s hr
 
 end Simpleline.Threads
